@@ -312,6 +312,11 @@ def body_pop(col: Collector, case):
                 break
             n_mid += 1
         proposed_state = fresh_state(s)
+        if case["klass"] == "overflow" and name in c["pop_latent"] and not case["reject"]:
+            # keeping an overflowing population value only leads to the model's documented refusal at the next read
+            # (LeaspyModelInputError): nothing to judge on the accepted side, so such a proposal is always rejected here
+            refused = True
+            classes.append("pop:overflow-forced-rejection")
         if case["reject"] or refused:
             s.revert()
             for k, v0 in S0.items():
